@@ -3,7 +3,8 @@
 Deterministic and replayable: checks refer to keys by *name* ("rsa2048_0", "p384_3", ...).  Imports
 nothing from spsdk and nothing from cryptography; raw numbers come from index.json.
 
-Kinds and pool sizes: rsa2048 x6, rsa3072 x4, rsa4096 x4, p256 x6, p384 x6, p521 x4 (e = 65537).
+Kinds and pool sizes: rsa2048 x6, rsa3072 x4, rsa4096 x4, p256 x8, p384 x8, p521 x6 (e = 65537).  The last two keys of every
+ECC kind are edge keys: X resp. Y has a leading zero byte (index.json does not mark them; compare bit lengths).
 Per key <name>:   <name>.pem / .der        private key, PKCS#8, unencrypted
                   <name>.pub.pem / .pub.der SubjectPublicKeyInfo
                   <name>.crt.pem / .crt.der self-signed X.509 v3 **CA** certificate (BasicConstraints CA=TRUE)
